@@ -318,8 +318,8 @@ class Folder(FileSystemItemABC):
         file.restore()
         self.files[file.uuid] = file
 
-        if file.deleted:
-            self.deleted_files.pop(file.uuid)
+        # file.restore() has just cleared the deleted flag, so look the file up rather than testing the flag
+        self.deleted_files.pop(file.uuid, None)
         return True
 
     def quarantine(self):
